@@ -98,6 +98,8 @@ fn suffix(case: &Case, exec: &Exec) -> String {
 }
 
 fn run_local(case: &Case, out: &mut Out) {
+  // (a trace left switched on by an earlier case of this worker must not leak into a local case)
+  locktrace::stop();
   vtime::install();
   vtime::reset();
   // field `unit us`: one virtual tick is a microsecond (default: a millisecond)
